@@ -117,8 +117,16 @@ func shapeInput(face *font.Face, t int, feat int) shaping.Input {
 	if t == 3 {
 		in.Direction, in.Script, in.Language = di.DirectionRTL, language.Arabic, "ar"
 	}
-	if feat != 0 {
+	switch feat {
+	case 0:
+	case 1, 2: // two non-zero values of one tag
 		in.FontFeatures = []shaping.FontFeature{{Tag: ot.MustNewTag("salt"), Value: uint32(feat)}}
+	case 3: // lists of the same length: other value, other tag
+		in.FontFeatures = []shaping.FontFeature{{Tag: ot.MustNewTag("kern"), Value: 0}}
+	case 4:
+		in.FontFeatures = []shaping.FontFeature{{Tag: ot.MustNewTag("kern"), Value: 1}}
+	case 5:
+		in.FontFeatures = []shaping.FontFeature{{Tag: ot.MustNewTag("liga"), Value: 0}}
 	}
 	return in
 }
